@@ -1,22 +1,206 @@
 (** * C03 — no request can crash, hang or produce an unserialisable response.
+    Only statements closed by [exact] and their [Print Assumptions].
 
-    Full statement (properties.jsonl): for every byte string q, JSON variables v, operation name n,
+    FULL STATEMENT (properties.jsonl): for every byte string q, JSON variables v, operation name n,
     schema S the library accepts and resolvers returning ordinary values or errors,
-    ParseAndValidate / Execute / Subscribe return normally, the response serialises to JSON and
-    carries errors whenever it carries no (or null) data.
+    ParseAndValidate / Execute / Subscribe return normally (no panic, no unbounded recursion, no
+    endless loop), the response serialises to JSON and carries errors whenever it carries no (or
+    null) data.
 
-    What is closed HERE is the glue of graphql.go over the verdicts of its stages (…_partial in
-    the sense of BUILDER_GUIDE: the stages' own totality theorems are proved over their own models
-    in the files of C07 (scanner makes progress on every byte string), C06 (parser total with the
-    stated fuel, recursion counter balanced), C04 (validator raises no panic), C05 (argument
-    coercion raises no panic, non-null positions never see null) and C01 (executor total on
-    validated documents; nil data only with an error; leaf coercion admits only serialisable
-    values); they are re-checked by those properties' own checks.  The composition across the
-    differently-typed stage models is tied by the hostile end-to-end stream of this property's
-    check, not by a theorem. *)
+    WHAT IS PROVED HERE.  [pipeline_order pi VS F ES bs opname raw W] (Pipe/Compose.v) is ONE executable
+    model of graphql.Execute on the BYTES [bs] of the request text: the parser model of C06 driven
+    by the scanner model of C07 ([FrontEnd.parse_document_bytes]), the glue of
+    graphql.ParseAndValidate, the validator model of C04 ([validate_model repaired]) on the
+    structurally converted tree ([Convert.vld_of_syn]), GetOperation and the synchronous executor
+    model of C01 (coq/ExeA: [ArgModel.run fixed] with [default_fuel], field arguments coerced by
+    C05's [coerce_argument_values]) on [Convert.exe_of_syn], after C05's [coerce_variable_values] on
+    the RAW variable values [raw] ([ArgModel.coerce_request_vars]), the glue of graphql.Execute.  [VS] / [ES]: the schema in the validator's / the executor's encoding
+    (the check verifies on every case that they describe one schema); [F] the enabled features;
+    [raw]: Request.VariableValues as handed to the library (any JSON value, Go int, or a Go value
+    of a kind no coercer accepts); [W]: the resolver-outcome world (what
+    every resolver returns for every object value: nil, typed nil, leaf values of every Go kind
+    incl. NaN / Inf, slices, object values, errors).
+    [pi]: the order in which Go's [range] visits the entries of the validator's maps (any
+    permutation: [order_ok pi]; [pipeline_model] = [pipeline_order id_order] is what the check runs).
+    Quantification: ALL byte strings, operation names, raw variable values, worlds, map orders,
+    schemas in both encodings — the only hypotheses are [order_ok pi] (a range visits each entry
+    once) and [schema_accepted ES] := [type_names_okb ES] (no zero byte in a type name) &&
+    [env_closed (s_inputs ES)] (every type an input type mentions is defined): both are guaranteed
+    by schema.New and evaluated by the check on every case.
+
+      C03_front_never_panics      ParseAndValidate from bytes: never Panic / OutOfFuel, any schema
+      C03_pipeline_never_panics   the whole pipeline never returns Panic / OutOfFuel
+      C03_pipeline_total          ... and returns a response, or reports a broken stage contract
+      C03_response_serialisable   every number in the data of a response has a JSON form
+      C03_data_or_errors          no (or null) data => at least one error
+      C03_parsed_positions_distinct   the parser's half of C01's hypothesis, across the conversion
+      C03_pipeline_order_independent  the response does not depend on Go's map iteration order
+
+    WHAT IS PARTIAL, and why.
+    - C01's totality theorem needs [doc_ok] ("what validation guarantees", as an execution over
+      types).  That the validator model establishes it is NOT proved (C04 has not proved
+      [validate_ok_doc_ok], see the header of Properties/C01.v).  The composed model therefore
+      EVALUATES [doc_ok] (and the size half of [doc_positions_okb]) and answers
+      [PContractBroken] when it fails; the totality theorems hold unconditionally because of that
+      check, and the correspondence check reports [PContractBroken] as an oracle failure on every
+      case (so the gap is tested on every run, not assumed).  Half of the obligation IS proved
+      ([C03_validated_type_conditions_composite]: type conditions of an accepted text are composite,
+      so the executor's panic("unexpected fragment type") is unreachable); the other half (typing of
+      the collected fields, [validate_establishes_typing], spelled out below) is the explicit
+      premise of [C03_validate_establishes_doc_ok_partial] / [C03_pipeline_response_partial]: with
+      it, every request with evaluable conditions gets a response.
+    - [doc_ok] contains C01's hypothesis that every @skip/@include condition has a boolean value.
+      A validated request can violate it (a nullable Boolean variable with a default, given null:
+      the directive's argument cannot be coerced, the selection is left out with an error).  Such
+      requests get [PUnevaluable r]: the executor model's answer, compared by the check, with no
+      theorem about it ([request_evaluable] is the hypothesis of [C03_pipeline_total]).
+    - Outside the composition: the cost rule (C14), Subscribe and asynchronous
+      resolvers (C02), the serialiser itself (encoding/json; [json_finite] is the condition under
+      which it accepts a number), stack depth of the Go runtime.  For these the glue theorems of
+      round 1 (…_partial below) and the hostile stream remain the evidence. *)
 From Coq Require Import List NArith.
-From ApiFu Require Import Pipe.PipelineModel Pipe.PipelineProofs.
+From ApiFu Require Import Base.Sexp.
+From ApiFu Require Syn.Ast Syn.ParserModel Syn.FrontEnd Vld.Ast Vld.ValidatorModel Vld.ProofsCommon Val.Values ExeA.ArgData ExeA.ArgArgs ExeA.ArgModel ExeA.ArgSpec ExeA.ArgHyps.
+From ApiFu Require Import Pipe.PipelineModel Pipe.PipelineProofs Pipe.Convert Pipe.Compose Pipe.SchemaAgree Pipe.PositionsProofs Pipe.ComposeProofs Pipe.CondsProofs.
+Import ListNotations.
 
+(** ** the composed model, from bytes *)
+
+(** graphql.ParseAndValidate: for EVERY byte string, schema and feature set the outcome is syntax
+    errors, validation errors or the accepted document — never a panic, never fuel exhaustion
+    (C06_parse_document_bytes_never_panics + C04_validate_no_panic across [vld_of_syn]) *)
+Theorem C03_front_never_panics : forall pi, Vld.ProofsCommon.order_ok pi -> forall VS F bs,
+  match parse_and_validate_order pi VS F bs with FPanic _ | FOutOfFuel _ => False | _ => True end.
+Proof. exact front_never_panics. Qed.
+
+(** ... and what each outcome means for the stages *)
+Theorem C03_front_cases : forall pi, Vld.ProofsCommon.order_ok pi -> forall VS F bs,
+  (exists e es tree, parse_and_validate_order pi VS F bs = FSyntax e es /\
+                     Syn.FrontEnd.parse_document_bytes bs = Syn.ParserModel.Out tree (e :: es)) \/
+  (exists d e es, parse_and_validate_order pi VS F bs = FInvalid e es /\
+                  Syn.FrontEnd.parse_document_bytes bs = Syn.ParserModel.Out (Some d) [] /\
+                  validate_doc pi VS F d = Vld.Ast.Done (e :: es)) \/
+  (exists d, parse_and_validate_order pi VS F bs = FAccepted d /\
+             Syn.FrontEnd.parse_document_bytes bs = Syn.ParserModel.Out (Some d) [] /\
+             validate_doc pi VS F d = Vld.Ast.Done []).
+Proof. exact front_cases. Qed.
+
+(** graphql.Execute: no stage of the composed model panics or runs out of fuel, for every byte
+    string, operation name, variable verdict, world and schema *)
+Theorem C03_pipeline_never_panics : forall pi, Vld.ProofsCommon.order_ok pi -> forall VS F ES bs opname raw W,
+  schema_accepted ES = true ->
+  match pipeline_order pi VS F ES bs opname raw W with PPanic _ | POutOfFuel _ => False | _ => True end.
+Proof. exact pipeline_never_panics_cases. Qed.
+
+(** ... and when every @skip/@include condition has a boolean value the outcome is a response
+    (syntax errors / validation errors / data and execution errors / the variable-coercion error),
+    or the report that a stage contract does not hold *)
+Theorem C03_pipeline_total : forall pi, Vld.ProofsCommon.order_ok pi -> forall VS F ES bs opname raw W,
+  schema_accepted ES = true -> request_evaluable pi VS F ES bs opname raw ->
+  is_response (pipeline_order pi VS F ES bs opname raw W) = true \/
+  contract_broken (pipeline_order pi VS F ES bs opname raw W) = true.
+Proof. exact pipeline_total. Qed.
+
+(** the complete classification: a response with data or errors and serialisable data; a broken
+    contract; or conditions without boolean value *)
+Theorem C03_pipeline_cases : forall pi, Vld.ProofsCommon.order_ok pi -> forall VS F ES bs opname raw W,
+  schema_accepted ES = true ->
+  let r := pipeline_order pi VS F ES bs opname raw W in
+  (is_response r = true /\ data_or_errors_p r = true /\ serialisable_p r = true) \/
+  contract_broken r = true \/
+  (unevaluable r = true /\
+   exists d o vv, parse_and_validate_order pi VS F bs = FAccepted d /\
+                  ExeA.ArgModel.get_operation (exe_of_syn d) opname = ExeA.ArgModel.GOp o /\
+                  ExeA.ArgModel.coerce_request_vars ES o raw = Val.Values.Ok vv /\
+                  ExeA.ArgHyps.dirs_evaluable (ExeA.ArgData.doc_of (exe_of_syn d) o vv) (ExeA.ArgArgs.env_of_vars vv) = false).
+Proof. exact pipeline_cases. Qed.
+
+(** every response's data has a JSON form: no NaN, no infinity anywhere in it (C01_exec_data_finite
+    through the composition) *)
+Theorem C03_response_serialisable : forall pi, Vld.ProofsCommon.order_ok pi -> forall VS F ES bs opname raw W j errs,
+  schema_accepted ES = true ->
+  pipeline_order pi VS F ES bs opname raw W = PExecuted (Some j) errs ->
+  ExeA.ArgData.json_finite j = true.
+Proof. exact pipeline_serialisable. Qed.
+
+(** a response without data (syntax errors, validation errors, a refused operation or variable
+    value, a propagated null at the root) carries at least one error *)
+Theorem C03_data_or_errors : forall pi, Vld.ProofsCommon.order_ok pi -> forall VS F ES bs opname raw W,
+  schema_accepted ES = true ->
+  is_response (pipeline_order pi VS F ES bs opname raw W) = true ->
+  data_or_errors_p (pipeline_order pi VS F ES bs opname raw W) = true.
+Proof. exact pipeline_data_or_errors. Qed.
+
+(** the parser's half of C01's hypothesis [doc_positions_okb], for every byte string: whatever
+    operation of a parsed text is selected, its selection nodes and those of all fragment
+    definitions have pairwise distinct positions in the executor's encoding
+    (C06_parse_bytes_pos_injective across [exe_of_syn]) *)
+Theorem C03_parsed_positions_distinct : forall bs d es opname o vv,
+  Syn.FrontEnd.parse_document_bytes bs = Syn.ParserModel.Out (Some d) es ->
+  ExeA.ArgModel.get_operation (exe_of_syn d) opname = ExeA.ArgModel.GOp o ->
+  ExeA.ArgHyps.nodup_posb
+    (map ExeA.ArgData.sel_pos (ExeA.ArgHyps.all_sels (ExeA.ArgData.doc_of (exe_of_syn d) o vv))) = true.
+Proof. exact parsed_positions_distinct. Qed.
+
+(** Go's map iteration order is not an input of the response: under any two orders the composed
+    model gives the same outcome, except that the validation errors of a rejected document may be
+    listed differently (C04_verdict_deterministic through the composition) *)
+Theorem C03_pipeline_order_independent : forall pi1 pi2 VS F ES bs opname raw W,
+  Vld.ProofsCommon.order_ok pi1 -> Vld.ProofsCommon.order_ok pi2 ->
+  pipeline_order pi1 VS F ES bs opname raw W = pipeline_order pi2 VS F ES bs opname raw W \/
+  (exists e1 l1 e2 l2, pipeline_order pi1 VS F ES bs opname raw W = PInvalid e1 l1 /\
+                       pipeline_order pi2 VS F ES bs opname raw W = PInvalid e2 l2).
+Proof. exact pipeline_order_independent. Qed.
+
+(** ** the open obligation [validate accepted => doc_ok], half of it proved.
+
+    [doc_ok ES D E fuel n] = [conds_ok ES D E] && [doc_typed ES D E]:
+    - [conds_ok]: every @skip/@include condition has a boolean value and every type condition (of a
+      fragment definition or an inline fragment, at any depth) names a composite type — so that
+      doesFragmentTypeApply never reaches panic("unexpected fragment type");
+    - [doc_typed]: whatever object type is reached, every collected field is defined on it and has
+      an output type (so that completeValue never reaches panic("unexpected field type")).
+    PROVED: a text accepted by the composed front half satisfies [conds_ok], for every selectable
+    operation, given evaluable conditions and schema encodings that agree (C04's rule theorem for
+    5.5.1 across [vld_of_syn] / [exe_of_syn] / [schemas_agree]). *)
+Theorem C03_validated_type_conditions_composite : forall pi VS F ES bs d opname o vv E,
+  Vld.ProofsCommon.order_ok pi -> schemas_agree VS ES = true ->
+  parse_and_validate_order pi VS F bs = FAccepted d ->
+  ExeA.ArgModel.get_operation (exe_of_syn d) opname = ExeA.ArgModel.GOp o ->
+  ExeA.ArgHyps.dirs_evaluable (ExeA.ArgData.doc_of (exe_of_syn d) o vv) E = true ->
+  ExeA.ArgSpec.conds_ok ES (ExeA.ArgData.doc_of (exe_of_syn d) o vv) E = true.
+Proof. exact accepted_conds_ok. Qed.
+
+Theorem C03_composite_condition_never_unexpected : forall ES c ot,
+  ExeA.ArgSpec.cond_ok ES c = true -> ExeA.ArgModel.type_applies ES ot c <> ExeA.ArgModel.ApPanic.
+Proof. exact cond_ok_no_panic. Qed.
+
+(** NOT PROVED — the remaining obligation (C04's [validate_ok_doc_ok], typing half):
+    [validate_establishes_typing pi VS F ES] :=
+      forall bs d opname o E,
+        parse_and_validate_order pi VS F bs = FAccepted d ->
+        get_operation (exe_of_syn d) opname = GOp o ->
+        let D := doc_of (exe_of_syn d) o in
+        dirs_evaluable D E = true -> doc_typed ES D E = true.
+    The composed model evaluates [doc_ok] on every run instead (outcome [PContractBroken CDocOk],
+    an oracle failure of the check).  With it, [validate_establishes_doc_ok] follows ... *)
+Theorem C03_validate_establishes_doc_ok_partial : forall pi VS F ES,
+  Vld.ProofsCommon.order_ok pi -> schemas_agree VS ES = true ->
+  validate_establishes_typing pi VS F ES -> validate_establishes_doc_ok pi VS F ES.
+Proof. exact doc_ok_from_typing. Qed.
+
+(** ... and every request with evaluable conditions whose text keeps positions below line 2^24 /
+    column 2^32 ([text_positions_small]) gets a response: no broken contract is left *)
+Theorem C03_pipeline_response_partial : forall pi VS F ES bs opname raw W,
+  Vld.ProofsCommon.order_ok pi ->
+  schema_accepted ES = true -> schemas_agree VS ES = true ->
+  validate_establishes_typing pi VS F ES -> text_positions_small bs ->
+  request_evaluable pi VS F ES bs opname raw ->
+  is_response (pipeline_order pi VS F ES bs opname raw W) = true.
+Proof. exact pipeline_response_if_typing. Qed.
+
+(** ** the glue of graphql.go over observed stage verdicts (round 1; still what covers Subscribe,
+    the cost rule, argument coercion and everything else outside the composed model) *)
 Theorem C03_execute_total_partial : forall p v e,
   no_crash p -> no_crash v -> no_crash e -> exists r, execute p v e = Resp r.
 Proof. exact execute_total. Qed.
@@ -37,6 +221,19 @@ Theorem C03_parse_errors_alone : forall n v e,
   execute (Returned (S n)) v e = Resp {| has_data := false; data_null := true; nerrors := S n |}.
 Proof. exact parse_errors_alone. Qed.
 
+Print Assumptions C03_front_never_panics.
+Print Assumptions C03_front_cases.
+Print Assumptions C03_pipeline_never_panics.
+Print Assumptions C03_pipeline_total.
+Print Assumptions C03_pipeline_cases.
+Print Assumptions C03_response_serialisable.
+Print Assumptions C03_data_or_errors.
+Print Assumptions C03_parsed_positions_distinct.
+Print Assumptions C03_pipeline_order_independent.
+Print Assumptions C03_validated_type_conditions_composite.
+Print Assumptions C03_composite_condition_never_unexpected.
+Print Assumptions C03_validate_establishes_doc_ok_partial.
+Print Assumptions C03_pipeline_response_partial.
 Print Assumptions C03_execute_total_partial.
 Print Assumptions C03_execute_data_or_errors_partial.
 Print Assumptions C03_subscribe_total_partial.
